@@ -1,25 +1,41 @@
 (** * Lex/LexCheck.v — C07 correspondence: decode a case, run the model and the Spec oracle, compare
     with what the real scanner did.  Executable only (extracted / vm_compute).
 
-    case ::= (case (src BYTES) (ign TOKS ERRS) (sig TOKS ERRS))
+    case ::= (case (src BYTES) (ign TOKS ERRS) (sig TOKS ERRS) [(api MODE (CALL ...) (RESP ...) (COUNT ...))])
       ign: scanner.New(src, ScanIgnored), sig: scanner.New(src, 0)
       TOKS ::= ((kind literal line column stringvalue) ...)     kind = int(Token())
       ERRS ::= ((line column) ...)
+      api (optional): a fresh scanner in mode MODE (1 = ScanIgnored) driven by an arbitrary call
+        sequence; CALL ::= 0 Scan | 1 Token | 2 Position | 3 Literal | 4 StringValue | 5 Errors;
+        RESP ::= 0|1 (Scan) | kind (Token) | (line column) (Position) | BYTES or panic (Literal,
+        StringValue) | ERRS (Errors); COUNT: len(Errors()) after each Scan() of the canonical loop in
+        that mode, the final Scan() = false included
 
     Oracle (runs on every case, on the IMPLEMENTATION's observation):
       - src is not valid UTF-8        => the scanner must report an error;
-      - the reference lexer fails     => the scanner must report an error;
+      - the reference lexer fails     => the scanner must report an error; its tokens must begin with
+        the agreed grammar tokens (LexPrefixSpec.agreed: all of them, except a comment that ends at the failure point)
+        and no error may lie before the end of those (instance of LexPrefix.lex_agrees_before_failure);
       - the reference lexer succeeds  => no error, and in ScanIgnored mode the token list equals the
         reference token list (kind, literal = UTF-8 of the token text, line, column, decoded value),
-        in mode 0 the list of its non-ignored tokens.
+        in mode 0 the list of its non-ignored tokens;
+      - every reported error (all of them) carries the (line, column) of a rune boundary of the
+        text or of its end, and successive errors never go backwards (instance of
+        LexErrors.lex_error_positions[_bytes]);
+      - api: every answer is the one LexApiSpec prescribes for the number of Scan() calls issued
+        so far, relative to the implementation's OWN canonical observation of that mode (instance
+        of LexApiProofs.api_call_order): no panic, stable observers, Scan() stays false after the
+        end, Errors() at cursor j is exactly the first COUNT[j] errors of the canonical list.
     Inputs in the two known classes (dangling-exponent, inner-bom) are outside the theorem; for
     them the model alone judges the implementation, and the case is reported under the class key.
 
     Correspondence (model vs implementation), compared modulo the property's equivalence: the
-    token lists (all five observables) in both modes, the error/no-error verdict and the position
-    of the first error.  Messages, the number of errors and later error positions are not compared. *)
+    token lists (all five observables) in both modes, the NUMBER of errors and the (line, column)
+    of EVERY error in order of report, and every answer of the api call sequence.  Error messages
+    are not compared (the property does not name them). *)
 From Coq Require Import List NArith ZArith Bool String.
-From ApiFu Require Import Base.Sexp Lex.Utf8 Lex.LexModel Lex.LexSpec Lex.LexRel.
+From ApiFu Require Import Base.Sexp Lex.Utf8 Lex.LexModel Lex.LexSpec Lex.LexRel Lex.LexErrors
+  Lex.LexApi Lex.LexApiSpec Lex.LexPrefixSpec.
 Import ListNotations.
 Open Scope string_scope.
 
@@ -71,6 +87,24 @@ Fixpoint first_diff (i : nat) (a b : list otok) : option (nat * string) :=
   | _, _ => Some (i, "count")
   end.
 
+(** first difference between the observed tokens and a required PREFIX of them *)
+Fixpoint first_prefix_diff (i : nat) (obs want : list otok) : option (nat * string) :=
+  match want with
+  | [] => None
+  | y :: want' =>
+      match obs with
+      | [] => Some (i, "count")
+      | x :: obs' =>
+          match first_diff 0 [x] [y] with
+          | Some (_, what) => Some (i, what)
+          | None => first_prefix_diff (S i) obs' want'
+          end
+      end
+  end.
+
+Definition pos_before (a b : Z * Z) : bool :=
+  (fst a <? fst b)%Z || ((fst a =? fst b)%Z && (snd a <? snd b)%Z).
+
 Definition token_eqb (a b : token) : bool :=
   tok_eqb (t_kind a) (t_kind b) && (t_off a =? t_off b)%Z && (t_len a =? t_len b)%Z &&
   (t_line a =? t_line b)%Z && (t_col a =? t_col b)%Z && bytes_eqb (t_lit a) (t_lit b) &&
@@ -85,12 +119,16 @@ Fixpoint tokens_eqb (a b : list token) : bool :=
 
 Definition is_nil {A} (l : list A) : bool := match l with [] => true | _ => false end.
 
-Definition first_err_eqb (a b : list (Z * Z)) : bool :=
+(** first index at which two error lists differ (a missing error counts as a difference) *)
+Fixpoint first_err_diff (i : nat) (a b : list (Z * Z)) : option nat :=
   match a, b with
-  | [], [] => true
-  | (l, c) :: _, (l', c') :: _ => (l =? l')%Z && (c =? c')%Z
-  | _, _ => false
+  | [], [] => None
+  | (l, c) :: a', (l', c') :: b' => if (l =? l')%Z && (c =? c')%Z then first_err_diff (S i) a' b' else Some i
+  | _, _ => Some i
   end.
+
+Definition errs_eqb (a b : list (Z * Z)) : bool :=
+  match first_err_diff 0 a b with None => true | Some _ => false end.
 
 Definition reason_name (w : reason) : string :=
   match w with
@@ -110,8 +148,11 @@ Definition compare_mode (name : string) (m : lex_result) (o : list otok * list (
       | Some (i, what) => Some (v_mismatch (name ++ "-token-" ++ what) [of_nat i])
       | None =>
           if negb (Bool.eqb (is_nil es) (is_nil (snd o))) then Some (v_mismatch (name ++ "-error-verdict") [])
-          else if negb (first_err_eqb es (snd o)) then Some (v_mismatch (name ++ "-first-error-position") [])
-          else None
+          else if negb (List.length es =? List.length (snd o))%nat then Some (v_mismatch (name ++ "-error-count") [])
+          else match first_err_diff 0 es (snd o) with
+               | Some i => Some (v_mismatch (name ++ "-error-position") [of_nat i])
+               | None => None
+               end
       end
   end.
 
@@ -158,12 +199,25 @@ Definition oracle (src : bytes) (oi os : list otok * list (Z * Z)) : option (str
   | Some cps =>
       match spec_lex cps with
       | (_, EndFuel) => Some ("spec-out-of-fuel", false, [])
-      | (_, EndError why idx _ _) =>
+      | (stoks_e, EndError why idx _ _) =>
           if is_nil (snd oi) || is_nil (snd os) then Some ("accepted-" ++ reason_name why, false, [of_nat idx])
-          else match first_unlocated 0 cps (fst oi ++ fst os) with
-               | Some (i, what) => Some ("token-" ++ what ++ "-in-erroneous-text", false, [of_nat i])
-               | None => None
-               end
+          else
+            let ag := agreed cps stoks_e true in
+            let limit := advance_pos (1, 1)%Z (agreed_count ag) cps in
+            match first_prefix_diff 0 (fst oi) (map otok_of_stoken ag) with
+            | Some (i, what) => Some ("token-" ++ what ++ "-before-failure", false, [of_nat i])
+            | None =>
+                match first_prefix_diff 0 (fst os) (map otok_of_stoken (significant ag)) with
+                | Some (i, what) => Some ("significant-token-" ++ what ++ "-before-failure", false, [of_nat i])
+                | None =>
+                    if existsb (fun e => pos_before e limit) (snd oi ++ snd os)
+                    then Some ("error-before-failure", false, [])
+                    else match first_unlocated 0 cps (fst oi ++ fst os) with
+                         | Some (i, what) => Some ("token-" ++ what ++ "-in-erroneous-text", false, [of_nat i])
+                         | None => None
+                         end
+                end
+            end
       | (stoks, EndOk) =>
           let known := if excl_dangling_exponent cps stoks then Some "dangling-exponent"
                        else if excl_inner_bom stoks then Some "inner-bom" else None in
@@ -186,9 +240,256 @@ Definition oracle (src : bytes) (oi os : list otok * list (Z * Z)) : option (str
       end
   end.
 
+(** ** error positions (oracle, on the implementation's observation).
+    The (line, column) of every rune boundary of the text, the end included: from the code points
+    with the specification's line rule when the text is valid UTF-8, otherwise by walking the
+    bytes rune by rune as utf8.DecodeRune delimits them (LexErrors.boundary). *)
+Fixpoint spec_positions (p : Z * Z) (l : list cp) : list (Z * Z) :=
+  p :: match l with
+       | [] => []
+       | c :: l' => spec_positions (if ends_line c (hd_error l') then (fst p + 1, 1)%Z else (fst p, snd p + 1)%Z) l'
+       end.
+
+Fixpoint byte_positions (fuel : nat) (st : state) : list (Z * Z) :=
+  (s_line st, s_col st) ::
+  (if is_done st then []
+   else match fuel with O => [] | S f => byte_positions f (consume_rune st) end).
+
+Definition boundary_positions (src : bytes) : list (Z * Z) :=
+  match utf8_decode src with
+  | Some cps => spec_positions (1, 1)%Z cps
+  | None => byte_positions (List.length src) (init src)
+  end.
+
+(** the suffix of [ps] that starts with [e] *)
+Fixpoint drop_until (e : Z * Z) (ps : list (Z * Z)) : option (list (Z * Z)) :=
+  match ps with
+  | [] => None
+  | p :: ps' => if (fst p =? fst e)%Z && (snd p =? snd e)%Z then Some ps else drop_until e ps'
+  end.
+
+(** index of the first error that is at no boundary at or after the boundary of its predecessor *)
+Fixpoint first_unplaced (i : nat) (ps : list (Z * Z)) (es : list (Z * Z)) : option nat :=
+  match es with
+  | [] => None
+  | e :: es' => match drop_until e ps with
+                | Some ps' => first_unplaced (S i) ps' es'
+                | None => Some i
+                end
+  end.
+
+Definition errors_oracle (src : bytes) (oi os : list otok * list (Z * Z)) : option (string * list sexp) :=
+  let ps := boundary_positions src in
+  match first_unplaced 0 ps (snd oi) with
+  | Some i => Some ("error-position-outside-text", [of_nat i])
+  | None => match first_unplaced 0 ps (snd os) with
+            | Some i => Some ("error-position-outside-text-mode0", [of_nat i])
+            | None => None
+            end
+  end.
+
+(** ** the api call sequence *)
+Inductive oresp :=
+| OBool (b : bool) | OTok (k : Z) | OPos (l c : Z) | OBytes (b : bytes) | OPanic | OErrs (es : list (Z * Z)).
+
+Definition call_of_Z (z : Z) : option call :=
+  if (z =? 0)%Z then Some CScan else if (z =? 1)%Z then Some CToken else if (z =? 2)%Z then Some CPosition
+  else if (z =? 3)%Z then Some CLiteral else if (z =? 4)%Z then Some CStringValue
+  else if (z =? 5)%Z then Some CErrors else None.
+
+Definition dec_call (s : sexp) : option call := match as_Z s with Some z => call_of_Z z | None => None end.
+
+Definition dec_bytes_or_panic (s : sexp) : option oresp :=
+  match s with
+  | SStr b => Some (OBytes b)
+  | _ => if is_sym "panic" s then Some OPanic else None
+  end.
+
+Definition dec_resp (c : call) (s : sexp) : option oresp :=
+  match c with
+  | CScan => match as_Z s with Some z => Some (OBool (negb (z =? 0)%Z)) | None => None end
+  | CToken => match as_Z s with Some z => Some (OTok z) | None => None end
+  | CPosition => match dec_err s with Some (l, c') => Some (OPos l c') | None => None end
+  | CLiteral | CStringValue => dec_bytes_or_panic s
+  | CErrors => match s with
+               | SL es => match map_opt dec_err es with Some es' => Some (OErrs es') | None => None end
+               | _ => None
+               end
+  end.
+
+Fixpoint dec_resps (cs : list call) (rs : list sexp) : option (list oresp) :=
+  match cs, rs with
+  | [], [] => Some []
+  | c :: cs', r :: rs' =>
+      match dec_resp c r, dec_resps cs' rs' with
+      | Some r', Some l => Some (r' :: l)
+      | _, _ => None
+      end
+  | _, _ => None
+  end.
+
+Definition oresp_of_resp (r : resp) : option oresp :=
+  match r with
+  | RFuel => None
+  | RBool b => Some (OBool b)
+  | RTok k => Some (OTok (tok_code k))
+  | RPos l c => Some (OPos l c)
+  | RBytes b => Some (OBytes b)
+  | RPanic => Some OPanic
+  | RErrs es => Some (OErrs es)
+  end.
+
+Definition oresp_eqb (a b : oresp) : bool :=
+  match a, b with
+  | OBool x, OBool y => Bool.eqb x y
+  | OTok x, OTok y => (x =? y)%Z
+  | OPos l c, OPos l' c' => (l =? l')%Z && (c =? c')%Z
+  | OBytes x, OBytes y => bytes_eqb x y
+  | OPanic, OPanic => true
+  | OErrs x, OErrs y => errs_eqb x y
+  | _, _ => false
+  end.
+
+Definition call_name (c : call) : string :=
+  match c with
+  | CScan => "scan" | CToken => "token" | CPosition => "position" | CLiteral => "literal"
+  | CStringValue => "string-value" | CErrors => "errors"
+  end.
+
+Fixpoint is_prefix (a b : list (Z * Z)) : bool :=
+  match a, b with
+  | [], _ => true
+  | (l, c) :: a', (l', c') :: b' => (l =? l')%Z && (c =? c')%Z && is_prefix a' b'
+  | _, _ => false
+  end.
+
+(** LexApiSpec, executable, relative to a canonical observation [(ots, oes)]; [last] / [lastj]:
+    the previous answer of Errors() and the cursor it was given at.  Result: the key of the first
+    answer that is not the prescribed one. *)
+Fixpoint api_oracle (ots : list otok) (oes : list (Z * Z)) (counts : list nat) (endp : Z * Z) (j : nat)
+  (last : list (Z * Z)) (lastj : nat) (cs : list call) (rs : list oresp) : option string :=
+  match cs, rs with
+  | [], [] => None
+  | c :: cs', r :: rs' =>
+      let j' := next_cursor j c in
+      let curt := match j' with O => None | S i => nth_error ots i end in
+      let after := (List.length ots <? j')%nat in
+      let phase := match j' with O => "before-scan" | S _ => if after then "after-end" else "at-token" end in
+      let ok :=
+        match c, r with
+        | CScan, OBool b => Bool.eqb b (j' <=? List.length ots)%nat
+        | CToken, OTok k => (k =? match curt with Some t => o_kind t | None => 0 end)%Z
+        | CPosition, OPos l co =>
+            match j', curt with
+            | O, _ => (l =? 0)%Z && (co =? 0)%Z
+            | _, Some t => (l =? o_line t)%Z && (co =? o_col t)%Z
+            | _, None => (l =? fst endp)%Z && (co =? snd endp)%Z
+            end
+        | CLiteral, OBytes b => bytes_eqb b (match curt with Some t => o_lit t | None => [] end)
+        | CStringValue, OBytes b => bytes_eqb b (match curt with Some t => o_val t | None => [] end)
+        | CErrors, OErrs es =>
+            is_prefix last es && is_prefix es oes &&
+            (if Nat.eqb lastj j' then errs_eqb last es else true) &&
+            (match j' with O => is_nil es | S i => Nat.eqb (List.length es) (nth i counts (List.last counts O)) end) &&
+            (if after then errs_eqb es oes else true)
+        | _, _ => false
+        end in
+      if ok then
+        api_oracle ots oes counts endp j' (match r with OErrs es => es | _ => last end)
+                   (match r with OErrs _ => j' | _ => lastj end) cs' rs'
+      else Some ("api-" ++ call_name c ++ "-" ++ phase)
+  | _, _ => Some "api-shape"
+  end.
+
+Fixpoint first_resp_diff (i : nat) (a b : list oresp) : option nat :=
+  match a, b with
+  | [], [] => None
+  | x :: a', y :: b' => if oresp_eqb x y then first_resp_diff (S i) a' b' else Some i
+  | _, _ => Some i
+  end.
+
+(** decoded api field: mode, calls, observed answers *)
+Definition dec_api (l : list sexp) : option (option (bool * list call * list oresp * list nat)) :=
+  match field "api" l with
+  | None => Some None
+  | Some [m; SL cs; SL rs; SL ks] =>
+      match as_Z m, map_opt dec_call cs, map_opt as_nat ks with
+      | Some m', Some cs', Some ks' =>
+          match dec_resps cs' rs with
+          | Some rs' => Some (Some (negb (m' =? 0)%Z, cs', rs', ks'))
+          | None => None
+          end
+      | _, _, _ => None
+      end
+  | Some _ => None
+  end.
+
+Definition api_oracle_case (src : bytes) (oi os : list otok * list (Z * Z))
+  (a : option (bool * list call * list oresp * list nat)) : option string :=
+  match a with
+  | None => None
+  | Some (m, cs, rs, ks) =>
+      let o := if m then oi else os in
+      if negb (Nat.eqb (List.length ks) (S (List.length (fst o)))) then Some "api-error-counts-shape"
+      else if negb (Nat.eqb (List.last ks O) (List.length (snd o))) then Some "api-error-counts-final"
+      else api_oracle (fst o) (snd o) ks (end_pos src) 0 [] 0 cs rs
+  end.
+
+Definition api_compare (src : bytes) (a : option (bool * list call * list oresp * list nat)) : option sexp :=
+  match a with
+  | None => None
+  | Some (m, cs, rs, _) =>
+      match map_opt oresp_of_resp (run m src cs) with
+      | None => Some (v_mismatch "api-model-out-of-fuel" [])
+      | Some ms => match first_resp_diff 0 ms rs with
+                   | Some i => Some (v_mismatch "api-answer" [of_nat i])
+                   | None => None
+                   end
+      end
+  end.
+
+(** the instance of api_call_order on this input: the model's answers against the model's own
+    canonical scan *)
+Definition api_theorem_instance (src : bytes) (a : option (bool * list call * list oresp * list nat)) : bool :=
+  match a with
+  | None => true
+  | Some (m, cs, _, ks) =>
+      match lex m src, map_opt oresp_of_resp (run m src cs) with
+      | Done ts es, Some ms =>
+          match api_oracle (map otok_of_token ts) es ks (end_pos src) 0 [] 0 cs ms with
+          | None => true
+          | Some _ => false
+          end
+      | _, _ => false
+      end
+  end.
+
+Definition api_classes (ots : list otok) (a : option (bool * list call * list oresp * list nat)) : list string :=
+  match a with
+  | None => []
+  | Some (m, cs, rs, _) =>
+      let scans := List.length (filter (fun c => match c with CScan => true | _ => false end) cs) in
+      ["api"] ++ (if m then ["api-scan-ignored"] else ["api-mode0"]) ++
+      (match cs with c :: _ => match c with CScan => [] | _ => ["api-observer-before-scan"] end | [] => [] end) ++
+      (if (S (List.length ots) <? scans)%nat then ["api-scan-after-end"] else []) ++
+      (if (List.length ots <? scans)%nat then ["api-reaches-end"] else [])
+  end.
+
 (** ** the theorem instance on this input (model vs Spec; must hold by LexRefine / LexValid /
     LexMode — a failure here means the extracted code or this file is broken) *)
+Definition model_errors_placed (src : bytes) : bool :=
+  match lex true src, lex false src with
+  | Done _ es, Done _ es' =>
+      let ps := boundary_positions src in
+      match first_unplaced 0 ps es, first_unplaced 0 ps es' with
+      | None, None => true
+      | _, _ => false
+      end
+  | _, _ => false
+  end.
+
 Definition theorem_instance (src : bytes) : bool :=
+  model_errors_placed src &&
   match utf8_decode src with
   | None =>
       match lex true src, lex false src with
@@ -239,6 +540,8 @@ Definition classes (src : bytes) (m : lex_result) : list string :=
       (if existsb (fun b => (127 <? b)%N) src then ["non-ascii"] else []) ++
       (if valid then [] else ["invalid-utf8"]) ++
       (if is_nil es then ["no-error"] else ["error"]) ++
+      (if (1 <? List.length es)%nat then ["multi-error"] else []) ++
+      (if existsb (fun e => (fst e =? fst (end_pos src))%Z && (snd e =? snd (end_pos src))%Z) es then ["error-at-end"] else []) ++
       (if spec_ok then ["spec-accepts"] else []) ++
       (if negb (is_nil strs) || has INT_VALUE || has FLOAT_VALUE || negb (is_nil es) || (2 <? List.length ts)%nat
        then ["nontrivial"] else [])
@@ -249,26 +552,50 @@ Definition check (c : sexp) : sexp :=
   | Some l =>
       match field1 "src" l, field "ign" l, field "sig" l with
       | Some (SStr src), Some li, Some ls =>
-          match dec_obs li, dec_obs ls with
-          | Some oi, Some os =>
+          match dec_obs li, dec_obs ls, dec_api l with
+          | Some oi, Some os, Some a =>
               if negb (forallb (fun b => (b <? 256)%N) src) then v_bad "byte-range"
               else
-                let corr := compare src oi os in
-                match oracle src oi os with
+                let corr := match compare src oi os with
+                            | Some v => Some v
+                            | None => api_compare src a
+                            end in
+                let orc := match oracle src oi os with
+                           | Some r => Some r
+                           | None =>
+                               match errors_oracle src oi os with
+                               | Some (key, d) => Some (key, false, d)
+                               | None => match api_oracle_case src oi os a with
+                                         | Some key => Some (key, false, [])
+                                         | None => None
+                                         end
+                               end
+                           end in
+                match orc with
                 | Some (key, known, d) =>
                     match known, corr with
                     | true, Some v => v            (* outside the theorem: the model is the judge *)
+                    | true, None =>
+                        (* a known class: the api sequence and the error positions are still judged *)
+                        match errors_oracle src oi os with
+                        | Some (key', d') => v_oracle_fail key' d'
+                        | None => match api_oracle_case src oi os a with
+                                  | Some key' => v_oracle_fail key' []
+                                  | None => v_oracle_fail key d
+                                  end
+                        end
                     | _, _ => v_oracle_fail key d
                     end
                 | None =>
                     match corr with
                     | Some v => v
                     | None =>
-                        if theorem_instance src then v_ok (classes src (lex true src))
+                        if theorem_instance src && api_theorem_instance src a
+                        then v_ok (classes src (lex true src) ++ api_classes (fst (if match a with Some (true, _, _, _) => true | _ => false end then oi else os)) a)
                         else v_mismatch "model-vs-spec" []
                     end
                 end
-          | _, _ => v_bad "decode"
+          | _, _, _ => v_bad "decode"
           end
       | _, _, _ => v_bad "fields"
       end
